@@ -163,7 +163,7 @@ pub fn run(ctx: &Ctx) -> i32 {
         }
         return rep.finish();
     }
-    let n = ctx.scale(20000, 300000);
+    let n = ctx.scale(60000, 300000);
     let mut trees = check::draw(ctx.seed, 0xC14, n, 520);
     let dnas: Vec<Vec<u16>> = trees.iter().map(|t| t.current()).collect();
     use rayon::prelude::*;
